@@ -522,6 +522,134 @@ fn replace_inner_inline_reach() {
 }
 
 // ---------------------------------------------------------------------------------------
+// shrink_to
+// ---------------------------------------------------------------------------------------
+
+pub(crate) fn shrink_to_post(r: &Repr, f: &Frame, m: usize, res: Result<(), ReserveError>) {
+    let g = f.g;
+    let refused = unsafe { A_REFUSED > 0 };
+    match res {
+        Err(_) => {
+            cov!(true, "shrink_to.err_reachable");
+            obl!(unchanged_after_error(f, r), "shrink_to.err_unchanged", "C02,C03,C05,C06,C13");
+            obl!(wf(r), "shrink_to.err_usable", "C05");
+            obl!(refused, "shrink_to.err_only_if_refused", "C01,C06");
+            obl!(f.allocs() + f.reallocs() <= 1 && f.deallocs() == 0, "shrink_to.err_alloc_calls_le_1", "C05");
+        }
+        Ok(()) => {
+            cov!(true, "shrink_to.ok_reachable");
+            obl!(wf(r), "shrink_to.wf", "C01,C03,C13,C20");
+            let h = view(r);
+            obl!(h.len == g.len, "shrink_to.len_same", "C01,C13");
+            obl!(f.text_probe_same(r, &h), "shrink_to.text_same", "C01,C13");
+            obl!(h.cap <= g.cap || h.cap <= MAX_INLINE_SIZE, "shrink_to.never_grows", "C13");
+            obl!(h.cap >= g.len, "shrink_to.cap_ge_len", "C11,C13");
+            obl!(h.cap >= m || h.cap >= g.cap, "shrink_to.cap_ge_min_unless_already_below", "C13");
+            obl!(f.static_untouched(), "shrink_to.static_untouched", "C10,C02");
+            let target = if g.len > m { g.len } else { m };
+            if g.kind != K_HEAP {
+                obl!(f.same_bits(r) && f.no_alloc_calls(), "shrink_to.non_heap_noop", "C09,C10,C13");
+            } else if target <= MAX_INLINE_SIZE {
+                cov!(g.rc > 1, "shrink_to.shared_to_inline");
+                cov!(g.rc == 1, "shrink_to.unique_to_inline");
+                obl!(h.kind == K_INLINE, "shrink_to.to_inline_when_it_fits", "C13");
+                if g.rc > 1 {
+                    obl!(f.old_block_intact(g.rc - 1) && f.no_alloc_calls(), "shrink_to.shared_to_inline_block_intact", "C02,C03");
+                } else {
+                    obl!(
+                        f.deallocs() == 1 && f.allocs() == 0 && f.reallocs() == 0 && !is_live(g.base),
+                        "shrink_to.unique_to_inline_frees_once",
+                        "C03"
+                    );
+                }
+            } else if g.cap > target {
+                cov!(g.rc > 1, "shrink_to.shared_exact");
+                cov!(g.rc == 1, "shrink_to.unique_exact");
+                obl!(h.kind == K_HEAP && h.cap == target, "shrink_to.exact_max_len_m", "C13");
+                if g.rc > 1 {
+                    obl!(f.old_block_intact(g.rc - 1), "shrink_to.shared_old_block_intact", "C02,C03");
+                    obl!(h.base != g.base && h.rc == 1, "shrink_to.shared_moves_to_own_block", "C02");
+                    obl!(
+                        f.allocs() == 1 && f.reallocs() == 0 && f.deallocs() == 0 && live_blocks() == f.live + 1,
+                        "shrink_to.shared_is_one_alloc",
+                        "C03,C05"
+                    );
+                } else {
+                    obl!(
+                        f.reallocs() == 1 && f.allocs() == 0 && f.deallocs() == 0 && live_blocks() == f.live,
+                        "shrink_to.unique_is_one_realloc",
+                        "C03,C05"
+                    );
+                    obl!(h.rc == 1, "shrink_to.unique_stays_unique", "C03");
+                }
+            } else {
+                cov!(true, "shrink_to.nothing_to_shrink");
+                obl!(f.same_bits(r) && f.no_alloc_calls(), "shrink_to.noop_when_not_larger", "C13");
+                if g.rc > 1 {
+                    obl!(f.old_block_intact(g.rc), "shrink_to.noop_block_intact", "C02");
+                }
+            }
+        }
+    }
+}
+
+fn shrink_to_contract(pre: (Repr, Ghost)) {
+    unsafe { A_FAIL = true };
+    let (mut r, g) = pre;
+    let f = Frame::snapshot(&r, &g);
+    let m: usize = kani::any();
+    let res = r.shrink_to(m);
+    shrink_to_post(&r, &f, m, res);
+}
+
+// @harness name=shrink_to_heap_unique props=C01,C02,C03,C05,C06,C11,C13 class=U tier=quick big=yes
+#[kani::proof]
+#[kani::stub(alloc::alloc::alloc, v_alloc)]
+#[kani::stub(alloc::alloc::dealloc, v_dealloc)]
+#[kani::stub(alloc::alloc::realloc, v_realloc)]
+fn shrink_to_heap_unique() {
+    shrink_to_contract(any_heap_rc(MAX_CAP, true));
+}
+
+// @harness name=shrink_to_heap_shared props=C01,C02,C03,C05,C06,C11,C13 class=U tier=quick big=yes
+#[kani::proof]
+#[kani::stub(alloc::alloc::alloc, v_alloc)]
+#[kani::stub(alloc::alloc::dealloc, v_dealloc)]
+#[kani::stub(alloc::alloc::realloc, v_realloc)]
+fn shrink_to_heap_shared() {
+    shrink_to_contract(any_heap_rc(MAX_CAP, false));
+}
+
+// @harness name=shrink_to_heap_reach props=C01,C02,C03,C05,C06,C11,C13 class=U tier=quick covers=shrink_to.err_reachable,shrink_to.ok_reachable,shrink_to.shared_to_inline,shrink_to.unique_to_inline,shrink_to.shared_exact,shrink_to.unique_exact,shrink_to.nothing_to_shrink
+#[kani::proof]
+#[kani::stub(alloc::alloc::alloc, v_alloc)]
+#[kani::stub(alloc::alloc::dealloc, v_dealloc)]
+#[kani::stub(alloc::alloc::realloc, v_realloc)]
+fn shrink_to_heap_reach() {
+    arm_covers();
+    shrink_to_contract(any_heap(REACH_CAP));
+}
+
+// @harness name=shrink_to_static props=C01,C10,C13 class=U tier=quick big=yes
+#[kani::proof]
+#[kani::stub(alloc::alloc::alloc, v_alloc)]
+#[kani::stub(alloc::alloc::dealloc, v_dealloc)]
+#[kani::stub(alloc::alloc::realloc, v_realloc)]
+fn shrink_to_static() {
+    shrink_to_contract(any_static(MAX_CAP));
+}
+
+// @harness name=shrink_to_inline props=C01,C09,C13 class=U tier=quick covers=shrink_to.ok_reachable
+#[kani::proof]
+#[kani::stub(alloc::alloc::alloc, v_alloc)]
+#[kani::stub(alloc::alloc::dealloc, v_dealloc)]
+#[kani::stub(alloc::alloc::realloc, v_realloc)]
+fn shrink_to_inline() {
+    arm_covers();
+    shrink_to_contract(any_inline());
+}
+
+// ---------------------------------------------------------------------------------------
 // pipeline canary: a deliberately false claim that every run must see FAIL (DESIGN 3.10)
 // ---------------------------------------------------------------------------------------
 
